@@ -1,7 +1,9 @@
-def run_monitor(prop, name, tier, seed, src, jobs):
+def run_monitor(prop, name, tier, seed, src, jobs, want=None):
     import importlib
 
     m = importlib.import_module("monitors." + name)
+    if want:
+        return m.run(prop, tier, seed, src, jobs, want=want)
     return m.run(prop, tier, seed, src, jobs)
 
 
